@@ -150,6 +150,11 @@ func (w *condWorld) preimageBytes(h int64) []byte {
 	if h == 0 {
 		return []byte{}
 	}
+	if h == 5 {
+		// the preimage whose bytes are the text of the one non-hex witness string: a verifier that fell back to the raw text of
+		// a preimage that is not hex would accept that witness for this lock
+		return []byte("nothex!")
+	}
 	x := sha256.Sum256([]byte(fmt.Sprintf("preimage-%d", h)))
 	return x[:]
 }
@@ -356,7 +361,7 @@ func (w *condWorld) genSecret(kind int, forceSigAll int) cSecret {
 	s := cSecret{kind: kind}
 	if kind == 1 {
 		s.isHash = true
-		s.hash = int64(1 + r.Intn(4))
+		s.hash = int64(1 + r.Intn(5))
 		s.len64 = true
 		switch r.Intn(14) {
 		case 0:
@@ -544,7 +549,7 @@ func (w *condWorld) genWitness(s cSecret, msg int64) cWit {
 		}
 		switch r.Intn(8) {
 		case 0:
-			wt.pre = int64(1 + r.Intn(4))
+			wt.pre = int64(1 + r.Intn(5))
 		case 1:
 			wt.pre = -1
 		case 2:
